@@ -13,12 +13,13 @@ import os
 from dataclasses import dataclass, replace
 from typing import Any, Dict, List, Optional, Tuple
 
-from .domains import (PartV, GenV, LamV, BoolV, BoundV, ClsV, Const, DictE, ElemE, ExcV, ExtV, Frame, FuncV, IdxE, IterV,
+from .domains import (TallyV, PartV, GenV, LamV, BoolV, BoundV, ClsV, Const, DictE, ElemE, ExcV, ExtV, Frame, FuncV, IdxE, IterV,
                       LenV, ListE, MethV, ModV, NoneV, NumV, ObjE, Ref, S, State, StrV, TupleV, Unknown, Val)
 from .exchier import ExcHier
 from .front import AnalysisError, ClassInfo, FuncInfo, Program, norm
 
 NEXT, BRK, CONT = 'next', 'brk', 'cont'
+UNBOUND = ExtV('%unbound-local')
 MAX_DEPTH = 24
 MAX_ROUNDS = 12
 MAX_STATES = 4000
@@ -479,6 +480,21 @@ class Interp(ModelMixin):
             if isinstance(v, Raise):
                 res.append((('raise', v.exc), s))
             else:
+                if isinstance(v, Const) and isinstance(v.v, int) and not isinstance(v.v, bool) and v.v >= 1 and isinstance(stmt.target, ast.Name) \
+                        and isinstance(stmt.op, ast.Add) and s.frame.loops and s.mon.get('itlog'):
+                    # `n += 1` right after a node went in at a position: if exactly one index of this frame has had n nodes
+                    # inserted at its anchor since it was taken (and nothing else happened to it), n is the tally of that index
+                    cands = []
+                    for val in s.frame.env.values():
+                        if isinstance(val, Ref) and val.kind == 'idx' and val.sym in s.heap:
+                            ie = s.get(val.sym)
+                            if ie.ins == v.v and v.v < 3 and ((ie.kind == 'fresh' and ie.delta == -v.v) or (ie.kind == 'end' and ie.slack == -v.v)) and val.sym not in cands:
+                                cands.append(val.sym)
+                    if len(cands) == 1:
+                        v = TallyV(('tally', stmt.target.id), cands[0], 0)
+                if isinstance(v, Const) and isinstance(v.v, int) and not isinstance(v.v, bool) and abs(v.v) > 2 and isinstance(stmt.target, ast.Name) \
+                        and s.frame.loops and s.mon.get('itlog'):
+                    v = NumV(('counter', stmt.target.id))        # a tally kept in a loop: "some number greater than 2" (widening)
                 res.extend(self.assign(stmt.target, v, s, stmt))
         return res
 
@@ -685,6 +701,8 @@ class Interp(ModelMixin):
                 res = []
                 for ctl, s in self.ex_block(h.body, st):
                     s.frame.cur_exc = saved
+                    if h.name and h.name in s.frame.env:
+                        s.frame.env[h.name] = UNBOUND          # `except ... as e`: e is deleted when the clause is left
                     res.append((ctl, s))
                 return res
         return [(('raise', exc), st)]
@@ -905,6 +923,8 @@ class Interp(ModelMixin):
                     and all(p[0] == 'fixed' or p[1] in st.heap for p in le0.spec):
                 # known elements, then the elements of another list, ...: the segments are iterated one after the other
                 cur, exits, escapes = [st], [], []
+                pin = f'%chain{itval.sym}'
+                st.frame.env[pin] = itval                 # the display itself stays reachable while its segments are iterated
                 for part in le0.spec:
                     nxt = []
                     for s in cur:
@@ -915,6 +935,8 @@ class Interp(ModelMixin):
                             (exits if kind == 'break' else nxt).append((kind, s2))
                     cur = [s for _, s in self.dedupe(nxt)]
                 exits.extend(('exhausted', s) for s in cur)
+                for _, s in exits + escapes:
+                    s.frame.env.pop(pin, None) if s.frames else None
                 return exits, escapes
         self.stats['loops'] += 1
         spec = self.iter_spec(itval, st, node)
@@ -964,7 +986,8 @@ class Interp(ModelMixin):
                     if count >= spec.lo:
                         s_exit = s.copy() if (spec.hi is None or count < spec.hi) else s
                         self.loop_exit(s_exit, depth, spec, count)
-                        exits.append(('exhausted', s_exit))
+                        if not s_exit.mon.pop('infeasible', None):
+                            exits.append(('exhausted', s_exit))
                     if spec.hi is not None and count >= spec.hi:
                         continue
                     self.loop_iter_start(s, depth, spec, count)
@@ -1069,6 +1092,8 @@ class Interp(ModelMixin):
                     visit_val(x)
                 for x in v.defaults:
                     visit_val(x)
+            elif isinstance(v, TallyV):
+                visit(v.base)
             elif isinstance(v, PartV):
                 if v.func is not None:
                     visit_val(v.func)
@@ -1201,6 +1226,9 @@ class Interp(ModelMixin):
         env = st.frame.env
         if e.id in env:
             v = env[e.id]
+            if v is UNBOUND or v == UNBOUND:
+                return [(self.exc('UnboundLocalError', st, e, f"cannot access local variable '{e.id}' where it is not associated with a value "
+                                  f"(deleted at the end of its except clause / by del)"), st)]
             if isinstance(v, GenV) and not getattr(self, '_want_gen', False):
                 # used as an ordinary value: run it now (eagerly) and remember the result, a generator is single-use anyway
                 outs = []
@@ -1245,6 +1273,15 @@ class Interp(ModelMixin):
             return NoneV() if expr.value is None else Const(expr.value)
         if isinstance(expr, ast.Call):
             tgt = self.prog.resolve_name_expr(mod, expr.func)
+            if isinstance(tgt, ClassInfo) and any(b.split('.')[-1] == 'NamedTuple' for b in tgt.ext_bases) and not any(isinstance(a, ast.Starred) for a in expr.args) \
+                    and all(k.arg for k in expr.keywords):
+                # a module-level constant record, e.g. _NOT_FOUND = FoundChild(None, None)
+                args = [self.module_global(mod, a, st) for a in expr.args]
+                kw = {k.arg: self.module_global(mod, k.value, st) for k in expr.keywords}
+                if all(isinstance(x, (Const, NoneV, TupleV, ClsV, FuncV)) for x in list(args) + list(kw.values())):
+                    outs = self.instantiate(ClsV(tgt.qualname), args, kw, st, expr)
+                    if len(outs) == 1 and isinstance(outs[0][0], TupleV):
+                        return outs[0][0]
             if isinstance(tgt, ClassInfo) and not expr.args and not expr.keywords:
                 return ExtV('singleton:' + tgt.qualname)
             if isinstance(tgt, tuple) and tgt[0] == 'external' and tgt[1] == 'functools.partial' and expr.args:
@@ -1531,7 +1568,9 @@ class Interp(ModelMixin):
         # late binding: while the defining frame is alive, the free variables of the body are that frame's *current* variables
         if 0 < lam.depth <= len(st.frames) and st.frames[lam.depth - 1].func is func:
             live = st.frames[lam.depth - 1].env
-            for n in list(env):
+            body = e.body if isinstance(e.body, list) else [e.body]
+            free = {x.id for b in body for x in ast.walk(b) if isinstance(x, ast.Name)} - set(params)
+            for n in free | set(env):          # also names bound only after the function object was created
                 if n in live:
                     env[n] = live[n]
         defaults = e.args.defaults
@@ -1734,7 +1773,7 @@ class Interp(ModelMixin):
             if len(other) == 1 and isinstance(other[0], ast.Name):
                 x = st.frame.env.get(other[0].id)
                 lists = []
-                if isinstance(it, Ref) and it.kind == 'list':
+                if isinstance(it, Ref) and it.kind == 'list' and it.sym in st.heap:
                     le = st.get(it.sym)
                     lists = [it.sym] + [p[1] for p in (le.spec or ()) if isinstance(p, tuple) and p and p[0] == 'list']
                 if isinstance(g.iter, (ast.Tuple, ast.List)):          # (a, *names): the starred lists themselves
@@ -1933,6 +1972,35 @@ class Interp(ModelMixin):
                 return [(ExcV(name, '', self.site(node, st), False), st)]
             return [(Unknown('instance of ' + name), st)]
         ci = self.prog.classes[c.qual]
+        if any(b.split('.')[-1] == 'NamedTuple' for b in ci.ext_bases) and not ci.find('__new__'):
+            # class X(NamedTuple): a: ...; b: ... = default  ->  a plain tuple with named fields
+            fields, defaults = [], {}
+            for b in ci.node.body:
+                if isinstance(b, ast.AnnAssign) and isinstance(b.target, ast.Name):
+                    fields.append(b.target.id)
+                    if b.value is not None:
+                        defaults[b.target.id] = b.value
+            if len(args) > len(fields) or any(k not in fields for k in kwargs):
+                return [(self.exc('TypeError', st, node, f'{ci.name}() got unexpected arguments'), st)]
+            bound = dict(zip(fields, args))
+            for k, v in kwargs.items():
+                if k in bound:
+                    return [(self.exc('TypeError', st, node, f'{ci.name}() got multiple values for {k}'), st)]
+                bound[k] = v
+            outs = [(bound, st)]
+            for f_ in fields:
+                if f_ in bound:
+                    continue
+                if f_ not in defaults:
+                    return [(self.exc('TypeError', st, node, f'{ci.name}() missing argument {f_}'), st)]
+                nxt = []
+                for bd, s in outs:
+                    for v, s2 in self.ev(defaults[f_], s):
+                        if isinstance(v, Raise):
+                            return [(v, s2)]
+                        nxt.append((dict(bd, **{f_: v}), s2))
+                outs = nxt
+            return [(TupleV(tuple(bd[f_] for f_ in fields), tuple(fields)), s) for bd, s in outs]
         ext = ci.ext_ancestors()
         if any(self.hier.known(x.split('.')[-1]) for x in ext):
             return [(ExcV(ci.name, '', self.site(node, st), False), st)]
@@ -1962,6 +2030,8 @@ class Interp(ModelMixin):
             if name == '__init__':
                 return [(ExtV('object.__init__'), st)]
             return [(self.exc('AttributeError', st, node, f'super has no {name}'), st)]
+        if isinstance(o, TupleV) and o.names and name in o.names:
+            return [(o.items[o.names.index(name)], st)]
         if isinstance(o, Ref) and o.kind == 'obj':
             e: ObjE = st.get(o.sym)
             ci = self.prog.classes[e.cls]
